@@ -123,6 +123,31 @@ def run_tie2(prop, P, tier, rng, replay=None, facts=None):
                     nfail += 1
                 if spec['nontrivial'](ops, io):
                     seen_nontrivial.add(json.dumps(ops))
+            # make the first failing multi-operation history readable: delta-debug it (the verdict does not depend on this)
+            if stream == 'mech':
+                for idx, (k, d, pl) in enumerate(problems):
+                    if k in ('oracle', 'correspondence') and pl.get('stream') == 'mech' and pl.get('cfg') == cfg and pl.get('profile') == profile \
+                            and isinstance(pl.get('case'), list) and len(pl['case']) > 6 and 'shrunk_from' not in pl:
+                        try:
+                            import shrink
+                            prefix = spec['prep']([('x', [])], cfg, profile)[0][1] if 'prep' in spec else []
+                            want_oracle = (k == 'oracle')
+                            def fails(cand, io2, mo2, rc):
+                                if io2 is None: return rc != 0
+                                if 'impl_map' in spec: io2 = spec['impl_map'](io2)
+                                if 'model_map' in spec and mo2 is not None:
+                                    try: mo2 = spec['model_map'](mo2, facts or {})
+                                    except Exception: return False
+                                ctx2 = dict(cfg=cfg, profile=profile); ctx2.update(spec.get('ctx', {}))
+                                w = spec['oracle'](cand, io2, ctx2) if 'oracle' in spec else None
+                                return bool(w) if want_oracle else (mo2 is None or io2 != mo2)
+                            small = shrink.shrink(exe, stream, prefix, pl['case'], fails, '%s-%s-%s' % (prop, cfg, profile))
+                            if len(small) < len(pl['case']):
+                                pl['shrunk_from'] = len(pl['case']); pl['original_case'] = pl['case']; pl['case'] = small
+                                problems[idx] = (k, d + ' (history shrunk from %d to %d operations)' % (pl['shrunk_from'], len(small)), pl)
+                        except Exception as ex:
+                            pl['shrink_error'] = str(ex)
+                        break
         cov['streams'][spec.get('label', stream)] = scov
         for cid, ops in cases[:2] + cases[-1:]:
             cov['samples'].append(dict(stream=stream, case=ops, impl=impl.get(cid) if 'impl' in dir() else None))
